@@ -59,6 +59,19 @@ def run(ctx: core.Ctx):
 
     rng = ctx.rng
     lines, refs = [], []
+    import json
+    corpus = json.loads((core.ROOT / "corpus" / "selection_sensitive.json").read_text())
+    for variant in ("wcv", "wcvp"):
+        for c in corpus["wcv"]:
+            nd = -3000.0
+            m = [bool(b) for b in c["mask"]]
+            arr = smooth.encode(c["y"], m, nd)
+            prm = dict(sr=c["sr"]) if variant == "wcv" else dict(sr=c["sr"], p=c["p"])
+            band, lopt = smooth.call(variant, arr, nd, prm)
+            lines.append(smooth.line(variant, arr, nd, prm))
+            refs.append((variant, arr, nd, prm, band, lopt, m, None))
+            ctx.case(("corpus", variant, tuple(c["y"])), sample=None)
+            ctx.count("corpus/" + variant)
     for variant in ("wcv", "wcvp", "wcvr", "wcvpr"):
         for k in range(ctx.budget(36, 360)):
             n = rng.choice([5, 6, 8, 10, 16, 24, 36] + ([] if ctx.quick else [72, 144, 200]))
